@@ -186,6 +186,44 @@ def run_generic(ctx):
             shutil.rmtree(str(c.cache_directory), ignore_errors=True)
 
 
+def run_large_patch(ctx):
+    """A patch with more than a million weighted records: any work split, block size or memory budget that depends on
+    the number of workers shows in the last bits of weighted sums.  Histogram and catalog accessors with 1, 2, 5 and 16
+    workers (simulated pool) and on the real pool must agree bit for bit."""
+    import yaw
+    from yaw.redshifts import HistData
+    n = (1 << 20) + 150001
+    g = np.random.default_rng(ctx.rng.randrange(2 ** 31))
+    cols = {"ra": 40.0 + g.uniform(-2.0, 2.0, n), "dec": -10.0 + g.uniform(-2.0, 2.0, n), "w": g.uniform(0.05, 3.0, n),
+            "z": g.uniform(0.05, 0.75, n)}
+    small = 5000
+    cols2 = {k: np.concatenate([v, (v[:small] + (3.0 if k in ("ra",) else 0.0))]) for k, v in cols.items()}
+    centers = impl.AngularCoordinates(np.deg2rad(np.array([[40.0, -10.0], [43.0, -10.0]])))
+    cat = impl.Catalog.from_dataframe(impl.fresh_dir(ctx, "large_patch"), impl.make_df(cols2), ra_name="ra", dec_name="dec", weight_name="w",
+                                      redshift_name="z", patch_centers=centers, max_workers=1)
+    cfg = yaw.Configuration.create(rmin=1.0, rmax=10.0, unit="arcmin", edges=[0.1, 0.2, 0.3, 0.4, 0.5, 0.6, 0.7], max_workers=1)
+    h0 = HistData.from_catalog(cat, cfg, max_workers=1)
+    want = (bits(h0.data), bits(h0.samples))
+    view0 = cat_view(impl.Catalog(cat.cache_directory, max_workers=1))
+    for w, real in ((2, False), (5, False), (16, False), (16, True), (3, True)):
+        if real:
+            h = HistData.from_catalog(cat, cfg, max_workers=w)
+            view = cat_view(impl.Catalog(cat.cache_directory, max_workers=w))
+        else:
+            with patched(simpool.Schedule("random", seed=ctx.rng.randrange(10 ** 6))):
+                h = HistData.from_catalog(cat, cfg, max_workers=w)
+                view = cat_view(impl.Catalog(cat.cache_directory, max_workers=w))
+        ctx.count(key=("large-patch", w, real), nontrivial=True, kind="large-patch/%s/w%d" % ("real-pool" if real else "sim-pool", w))
+        if (bits(h.data), bits(h.samples)) != want:
+            ctx.fail("c05-hist-depends-on-worker-count", "HistData.from_catalog of a catalog with a patch of %d weighted records differs in its bits "
+                     "between 1 and %d workers (%s pool)" % (n, w, "real" if real else "simulated"),
+                     dict(entry="hist", workers=w, real_pool=real, patch_records=n, generic_weights=True), case=("large-patch", w, real))
+        if view != view0:
+            ctx.fail("c05-load-depends-on-completion-order", "Catalog(cache) of a catalog with a patch of %d records loaded with %d workers reports other values" % (n, w),
+                     dict(entry="load", workers=w, real_pool=real, patch_records=n), case=("large-patch-load", w, real))
+    shutil.rmtree(str(cat.cache_directory), ignore_errors=True)
+
+
 def run(ctx):
     import yaw
     from yaw.redshifts import HistData
@@ -311,6 +349,7 @@ def run(ctx):
         for c in (ref, unk, rand):
             shutil.rmtree(str(c.cache_directory), ignore_errors=True)
     run_generic(ctx)
+    run_large_patch(ctx)
     impl.set_threads(1)
     codes = ctx.shards("Cases_C05", HEADER, terms, shard=40)
     for (cid, meta), c in zip(metas, codes):
